@@ -91,7 +91,7 @@ def gen_case(pyrng, present, nmax=12, force=None):
         else:
             v = rnd(g, (n,), cplx)
             if start == "scaled":
-                v = v * float(g.choice([1e3, 1e-3, 7.0]))
+                v = v * float(g.choice([1e3, 1e-3, 7.0, 1e-30, 1e-20, 1e-12, 1e-11, 1e-9, 1e-6, 1e6, 1e12, 1e20, 1e30]))      # start-vector norms from 1e-30 to 1e30
             grades.append(n)
         vs.append(v if cplx else np.real(v))
     c["start"] = start
@@ -143,6 +143,70 @@ def gen_mixed_batch(pyrng, nmax=10):
     return c
 
 
+def default_probe(n, key=None):
+    """the start vector lanczos / arnoldi draw when none is given, reproduced independently of cola: randn(n, key=PRNGKey(42)) or
+    randn(n, key=key); the numpy backend's PRNGKey(x) is int(sha256(big-endian bytes of x)) mod (2^32 - 1) and randn(key) is
+    numpy's legacy generator seeded with the key (cast to the operator's dtype: real values also for complex operators)"""
+    import hashlib
+    if key is None:
+        x = 42
+        key = int.from_bytes(hashlib.sha256(x.to_bytes((x.bit_length() + 7) // 8, "big")).digest(), "big") % (2 ** 32 - 1)
+    return np.random.RandomState(int(key)).randn(n)
+
+
+def gen_nostart(pyrng, present, nmax=10):
+    """calls WITHOUT a start vector (default random probe; key given or not) on every operator kind: the factorisation must be that
+    of the default probe, which the harness reproduces independently (default_probe)"""
+    g = np.random.default_rng(pyrng.getrandbits(64))
+    while True:
+        c = gen_case(pyrng, present, nmax=nmax, force=dict(start="random"))
+        if c["batch"] == 0 and not in_avoided_region(c, present):
+            break
+    c["key"] = None if g.random() < 0.5 else int(g.integers(1, 2 ** 31))
+    v = default_probe(c["n"], c["key"])
+    c["v"] = enc((v + 0j)[None, :])
+    c["entry"] = "arnoldi_nostart"
+    c["start"] = "default_probe"
+    return c
+
+
+def gen_graded(pyrng):
+    """badly scaled (graded) operators A = D^-1 M D, D = diag(1 .. 10^k), k = 3..8, M well conditioned: huge upper triangle, tiny lower
+    triangle and sub-diagonal of H, spectrum that of M.  arnoldi_eigs with max_iters >= n from e_1 or a random vector."""
+    g = np.random.default_rng(pyrng.getrandbits(64))
+    n = int(g.integers(3, 9)); k = float(g.integers(3, 9))
+    M = g.standard_normal((n, n)) + 2.0 * np.eye(n)
+    D = np.logspace(0, k, n)
+    A = (M * D[None, :]) / D[:, None]
+    v = np.eye(n)[0] if g.random() < 0.6 else g.standard_normal(n)
+    return dict(kind="dense", cplx=False, parts=[enc(A)], n=n, start="graded", batch=0, grades=[n], v=enc((v + 0j)[None, :]), grading=k,
+                max_iters=int(g.choice([n, n, n + 2])), tol=float(g.choice([1e-7, 1e-7, 1e-6, 1e-4, 1e-10])), entry="arnoldi_eigs", family="graded")
+
+
+def oracle_graded(c, obs):
+    """arnoldi_eigs on graded operators: its values are eig of the square H of arnoldi() with the same arguments, and, when the run took
+    its n steps, the spectrum of A (matched one to one, relative to the largest eigenvalue)"""
+    if not obs.get("ok"):
+        return ["raised " + obs.get("err", "")]
+    bad = []
+    S = np.asarray(dense_of(c), dtype=float); n = c["n"]
+    w = dec(obs["eigs"]); H = dec(obs["H"][0]).T
+    ref = np.linalg.eigvals(H[:-1])
+    lam = np.linalg.eigvals(S); top = np.abs(lam).max()
+    if len(w) != len(ref) or hausdorff(w, ref) > 1e-8 * top:
+        bad.append(f"arnoldi_eigs values are not eig of the square H of arnoldi() for the same arguments (distance {hausdorff(w, ref):.3g})")
+    sd = np.abs(np.diag(H, -1))
+    cond = np.linalg.cond(np.linalg.eig(S)[1])
+    if H.shape[1] == n and np.all(sd[:n - 1] > 0) and len(w) == n and cond < 1e10:
+        rest, err = list(w), 0.0
+        for r in lam:
+            j = int(np.argmin([abs(e - r) for e in rest])); err = max(err, abs(rest.pop(j) - r))
+        # eigenvalues of the dense reference itself are only determined to eps*cond(eigenvectors)
+        if err > max(1e-8, 1e-13 * cond) * top and hausdorff(ref, lam) <= max(1e-8, 1e-13 * cond) * top:
+            bad.append(f"arnoldi_eigs with max_iters >= n does not return the spectrum of the graded operator (error {err / top:.3g} of the largest eigenvalue)")
+    return bad
+
+
 def gen_mixed_dtype(pyrng, nmax=10):
     """the start vector's dtype is wider than the operator's: a complex start vector on a real operator, or a float64 start vector
     on a float32 operator (entries exactly representable in float32, so binary64 arithmetic on them is what NumPy does after
@@ -160,6 +224,7 @@ def gen_mixed_dtype(pyrng, nmax=10):
         M = dec(c["parts"][0]).real.astype(np.float32).astype(np.float64)
         c["parts"] = [enc(M)]
         c.update(op_f32=True, mixed="float64 start / float32 operator")
+    V = V * float(g.choice([1.0, 1.0, 1e-15, 1e-12, 1e-6, 1e6, 1e15]))
     c["v"] = enc(V)
     c["tol"] = float(g.choice([1e-7, 1e-6, 1e-3]))
     c["entry"] = str(g.choice(["arnoldi", "Arnoldi()"])) if c["batch"] == 0 else "arnoldi"
@@ -181,7 +246,7 @@ def gen_small_scale(pyrng, nmax=10):
 
 # ----------------------------------------------------------------------------------------------- exact-arithmetic stream
 def _pow2(g):
-    return float(g.choice([1.0, -1.0, 2.0, -0.5, 4.0]))
+    return float(g.choice([1.0, -1.0, 2.0, -0.5, 4.0, 2.0 ** -40, -2.0 ** 40, 2.0 ** -100, 2.0 ** 100]))
 
 
 def gen_exact_case(pyrng):
@@ -492,7 +557,10 @@ def run_impl(c):
     try:
         A = build_op(c)
         v = start_of(c)
-        if c["entry"] == "Arnoldi()":
+        if c["entry"] == "arnoldi_nostart":
+            kw = {} if c.get("key") is None else dict(key=c["key"])
+            Q, H, info = arnoldi(A, max_iters=c["max_iters"], tol=c["tol"], **kw)
+        elif c["entry"] == "Arnoldi()":
             Q, H, info = Arnoldi(start_vector=v, max_iters=c["max_iters"], tol=c["tol"])(A)
         else:
             Q, H, info = arnoldi(A, v, max_iters=c["max_iters"], tol=c["tol"])
